@@ -1098,6 +1098,10 @@ coap_send_message_type_lkd(coap_session_t *session, const coap_pdu_t *request,
   coap_mid_t result = COAP_INVALID_MID;
 
   coap_lock_check_locked(session->context);
+  if (type == COAP_MESSAGE_RST && coap_is_mcast(&session->addr_info.local)) {
+    /* RFC 7252 8.1: no Reset in reply to a message received via multicast */
+    return COAP_INVALID_MID;
+  }
   if (request && COAP_PROTO_NOT_RELIABLE(session->proto)) {
     response = coap_pdu_init(type, 0, request->mid, 0);
     if (response)
